@@ -53,6 +53,11 @@ func genMux(seed uint64, n int, maxOps int, demux bool, emit func(interface{})) 
 			emit(sc)
 			continue
 		}
+		if s%12 == 1 {
+			genMuxSharedHdr(r, &sc)
+			emit(sc)
+			continue
+		}
 		if s%12 == 11 {
 			genMuxLowPID(r, &sc, s/12)
 			emit(sc)
@@ -192,7 +197,7 @@ func genMuxReuseAndWidePID(r *rng, sc *muxScenario, demux bool) {
 // genMuxLowPID: an elementary stream on an explicit PID at the bottom of the range (ISO-reserved 0x01..0x0f, the DVB SI PIDs 0x10..0x1f
 // which the Demuxer reads as PSI whatever the PMT says, and the first free ones): the stream is either refused or comes back (C01)
 func genMuxLowPID(r *rng, sc *muxScenario, k int) {
-	lows := []int{0x11, 0x10, 0x12, 0x13, 0x14, 0x1e, 0x1f, 0x01, 0x02, 0x0f, 0x15, 0x1d, 0x20, 0x21}
+	lows := []int{0x11, 0x1fff, 0x10, 0x12, 0x13, 0x14, 0x1e, 0x1f, 0x01, 0x02, 0x0f, 0x15, 0x1d, 0x20, 0x21, 0x1ffe}
 	low := lows[k%len(lows)]
 	sc.Ops = append(sc.Ops, muxOp{Op: "add", PID: 0x100, ST: 27, DK: "none"}, muxOp{Op: "setpcr", PID: 0x100},
 		muxOp{Op: "add", PID: low, ST: 15, DK: r.pickS("none", "si")}, muxOp{Op: "tables"})
@@ -202,6 +207,20 @@ func genMuxLowPID(r *rng, sc *muxScenario, k int) {
 			pid = low
 		}
 		sc.Ops = append(sc.Ops, muxOp{Op: "data", PID: pid, Len: r.pick(1, 100, 184, 185, 400, 1000), Hdr: r.pickS("pts", "ptsdts", "none"), AF: r.pickS("none", "rai", "raipcr")})
+	}
+}
+
+// genMuxSharedHdr: streams of different types (video 0xe0, audio 0xc0, AC-3 0xfd, private 0xbd) written in turn with one shared PESHeader
+// object whose stream id is left to the muxer: every PES carries the id of its own stream's type (C01)
+func genMuxSharedHdr(r *rng, sc *muxScenario) {
+	sc.SharedHdr = true
+	sts := []int{27, 15, 0x81, 6}
+	for i, st := range sts {
+		sc.Ops = append(sc.Ops, muxOp{Op: "add", PID: 0x100 + i, ST: st, DK: "none"})
+	}
+	sc.Ops = append(sc.Ops, muxOp{Op: "setpcr", PID: 0x100}, muxOp{Op: "tables"})
+	for i, n := 0, r.rangeInt(8, 14); i < n; i++ {
+		sc.Ops = append(sc.Ops, muxOp{Op: "data", PID: 0x100 + (i+i/4)%len(sts), Len: r.pick(1, 100, 184, 400), Hdr: r.pickS("pts", "pts", "ptsdts"), AF: r.pickS("none", "rai")})
 	}
 }
 
